@@ -7,10 +7,10 @@ package main
 
 import (
 	"fmt"
-	"os"
 	"go/constant"
 	"go/token"
 	"go/types"
+	"os"
 	"sort"
 	"strings"
 
@@ -1567,4 +1567,30 @@ func inActivation(e *Expr, args []*Expr) *Expr {
 		return e
 	}
 	return substParams(e, args, map[*Expr]*Expr{}, 0)
+}
+
+// edgeGuarded: is the CFG edge pred→succ taken only across one of bars?  Either the edge
+// itself is a barrier edge (pred ends in a branch whose matching successor is succ), or
+// pred's terminator is unreachable from the function entry without crossing bars.
+func (c *Ctx) edgeGuarded(pred, succ *ssa.BasicBlock, bars []Barrier, top *ssa.Function) bool {
+	if len(pred.Instrs) == 0 {
+		return false
+	}
+	term := pred.Instrs[len(pred.Instrs)-1]
+	if iff, ok := term.(*ssa.If); ok {
+		cond := condOf(iff)
+		for _, b := range bars {
+			if b.Edge == nil {
+				continue
+			}
+			if m, which := b.Edge(cond); m && which < len(pred.Succs) && pred.Succs[which] == succ {
+				// the other successor must not be succ as well
+				if len(pred.Succs) == 2 && pred.Succs[0] != pred.Succs[1] {
+					return true
+				}
+			}
+		}
+	}
+	ug, _ := c.unguarded(term, bars, top)
+	return !ug
 }
